@@ -214,16 +214,19 @@ func (x *c02Run) engine(h uint64) *liquid.Engine {
 	}
 	// earlier activity elsewhere in the process: ANOTHER engine is configured
 	// differently (overrides standard filters, defines names this case may misspell)
-	other := liquid.NewEngine()
+	other := NewEngine(x.cs.Cfg) // same tags (their arguments are evaluated the same way), other filters
 	other.RegisterFilter("upcase", func(s string) string { return "!other-engine-upcase!" })
 	other.RegisterFilter("join", func(a []any) string { return "!other-engine-join!" })
 	other.RegisterFilter("size", func(a any) int { return -77 })
 	other.RegisterFilter("upcas", func(s string) string { return "!defined-elsewhere!" })
 	other.RegisterFilter("nosuchfilter", func(s string) string { return "!defined-elsewhere!" })
-	other.RegisterTag("echo", func(render.Context) (string, error) { return "!other-engine-echo!", nil })
+	other.RegisterTag("only_on_other", func(render.Context) (string, error) { return "!other-engine-tag!", nil })
 	other.RegisterFilter("hx", func(s string) string { return "!other-engine-hx!" })
 	other.RegisterFilter("hwhere", func(a []any, name string, x any) []any { return nil })
-	other.ParseAndRenderString(`{{ "x" | upcase }}{% echo 1 %}`, map[string]any{})
+	guard(func() Res {
+		other.ParseAndRenderString(dOL+` "x" | upcase `+dOR+dTL+` echo 1 `+dTR, map[string]any{})
+		return Res{}
+	})
 	// ... and renders this case's own template (and prelude) first: whatever the process
 	// remembers per expression text now comes from an engine with other filters and tags
 	guard(func() Res { other.ParseAndRenderString(x.src, x.b0); return Res{} })
